@@ -7,8 +7,8 @@ CONSTANTS
   MaxTasks = 3
   MaxOps = 7
   SyncTask = TRUE
-  Dev = {}
+  Dev = {"stale-link"}
 INIT Init
 NEXT Next
 VIEW view
-INVARIANTS EmitInv C16_OneLive C16_TableIsLive C16_Capacity C16_SessionConsistent C16_Attribution SessionHasConnection LinkRecorded
+INVARIANTS SessionHasConnection
